@@ -406,7 +406,7 @@ func c35cut(blob []byte, k, style int) c35resp {
 	return c35resp{code: 200, body: blob[:k], clean: false, style: style}
 }
 func c35status(code int) c35resp {
-	return c35resp{code: code, body: []byte("status " + strconv.Itoa(code)), clean: true}
+	return c35resp{code: code, body: []byte{byte(code / 100), byte(code % 100)}, clean: true}
 }
 func c35one(rs ...c35resp) c35origin { return c35origin{script: rs, budget: 1000} }
 
@@ -499,15 +499,15 @@ func c35cutPoint(r *hlib.Rng, n int) int {
 func c35random(r *hlib.Rng, dishonest bool) *c35case {
 	c := &c35case{resolveOK: !r.Chance(2)}
 	c.cluster = r.Chance(65)
-	switch k := r.Intn(20); {
-	case k == 0:
+	switch k := r.Intn(100); {
+	case k < 5:
 		c.blob = []byte{}
-	case k == 1:
+	case k < 10:
 		c.blob = r.Bytes(1)
-	case k == 2: // larger than io.Copy's 32 KiB buffer
+	case k < 12: // larger than io.Copy's 32 KiB buffer
 		c.patSeed = r.Range(1, 60000)
-		c.blob = c35pat(c.patSeed, r.Range(32760, 70000))
-	case k == 3:
+		c.blob = c35pat(c.patSeed, r.Range(32760, 42000))
+	case k < 17:
 		c.patSeed = r.Range(1, 60000)
 		c.blob = c35pat(c.patSeed, r.Range(200, 5000))
 	default:
@@ -561,7 +561,7 @@ func c35random(r *hlib.Rng, dishonest bool) *c35case {
 			o.script = append(o.script, c35status(c35codes4[r.Intn(len(c35codes4))]))
 		case term < 93:
 			code := c35codes5[r.Intn(len(c35codes5))]
-			o.script = append(o.script, c35resp{code: code, body: []byte("cut status body"), clean: false, style: r.Intn(3)})
+			o.script = append(o.script, c35resp{code: code, body: []byte("cut"), clean: false, style: r.Intn(3)})
 		default: // the origin disappears: script ends here
 		}
 		if dishonest && r.Chance(60) {
